@@ -491,7 +491,14 @@ pub fn c08_sequence_case(ctx: &Ctx, k: usize, rep: &mut Report) {
         hist.push_str(&format!("{}x{}@{}/{}/{} ", w, h, oy, ob, or));
         let coords = || J::obj().set("property", "C08").set("kind", "sequence").set("tier", ctx.tier_name()).set("seed", ctx.seed).set("stage", ctx.stage.clone()).set("k", k).set("what", format!("call {} of the sequence [{}]", i, hist.trim_end()));
         rep.evaluations += 1;
-        let out = match catch(|| yuv420_to_rgba(&ybuf[oy..], &bbuf[ob..], &rbuf[or..], w)) {
+        // now and then one and the same slice serves as both chroma planes (nothing forbids it)
+        let same_chroma = rng.chance(1, 5);
+        if same_chroma {
+            rbuf = bbuf.clone();
+            rep.count("calls_with_one_slice_as_both_chroma_planes");
+        }
+        let or = if same_chroma { ob } else { or };
+        let out = match catch(|| if same_chroma { yuv420_to_rgba(&ybuf[oy..], &bbuf[ob..], &bbuf[ob..], w) } else { yuv420_to_rgba(&ybuf[oy..], &bbuf[ob..], &rbuf[or..], w) }) {
             Ok(o) => o,
             Err(p) => {
                 rep.violation(format!("panic@{}", p.loc), format!("call {} of the sequence [{}] panicked: {}", i, hist.trim_end(), p.msg), coords());
@@ -621,6 +628,7 @@ pub fn run_c08(ctx: &Ctx) -> (Report, String) {
     if ctx.is_main() && ctx.scale_pct == 100 {
         rep.require("call_sequences", 2000);
         rep.require("calls_with_unaligned_luma", 2000);
+        rep.require("calls_with_one_slice_as_both_chroma_planes", 1000);
     }
     // the empty picture: documented shortcut; width 0 is the documented companion value
     match catch(|| yuv420_to_rgba(&[], &[], &[], 0)) {
